@@ -232,6 +232,41 @@ class EvDomain(Domain):
         r = self.call_result(ex, n, q, base, on, ov, vals, st, fr)
         return r
 
+    def const_array(self, n, fr):
+        """the elements of a local array of constants (enumerators / integers) named by `n`, from its initialiser; else None"""
+        if n is None or n.k != 'ref' or n.dk != 'local': return None
+        for dn in fr.fn.nodes():
+            if dn.k != 'decl': continue
+            for v in dn.vars:
+                if v['decl'] != n.decl or not v.get('init') or v['init'] not in dn.tu.ex: continue
+                if not ((v.get('ctype') or '').startswith(('const std::array<', 'std::array<')) or '[' in (v.get('ctype') or '')): return None
+                out = []
+                def leaves(x):
+                    while x is not None and x.k in ('cast', 'paren', 'materialize', 'bindtemp') and x.n('sub') is not None: x = x.n('sub')
+                    if x is None: return
+                    if x.k in ('initlist', 'construct'):
+                        for a in x.ns('args'): leaves(a)
+                    else: out.append(x)
+                leaves(Node(dn.tu, v['init']))
+                vals = []
+                for x in out:
+                    if x.k == 'ref' and x.dk == 'enum': vals.append(Enum(x.qname or x.name))
+                    elif x.k == 'int': vals.append(Lin.const(x.v))
+                    else: return None
+                return vals or None
+        return None
+
+    def compare(self, ex, op, l, r, n, st, fr):
+        # positions in a constant array (std::find above): `it != arr.end()`
+        if op in ('==', '!=') and isinstance(l, Sym) and isinstance(r, Sym):
+            def split(s_):
+                m = re.match(r'^(.*)\.(end|at\d+)$', s_.name)
+                return m.groups() if m else (None, None)
+            (xl, pl), (xr, pr) = split(l), split(r)
+            if xl is not None and xl == xr:
+                return (pl == pr) if op == '==' else (pl != pr)
+        return None
+
     def vcall_result(self, ex, n, q, base, on, ov, vals, st, fr):
         return None
 
@@ -319,6 +354,19 @@ class EvDomain(Domain):
                 and vals[0].name.endswith('.begin') and vals[1].name == vals[0].name[:-6] + '.end' and self.container_empty(vals[0].name[:-6]) is True:
             return Lin.const(0)          # nothing to count in a container the row says is empty
         qn_, aargs_ = self.algo_name(n)
+        if qn_ == 'std::find' and len(aargs_) >= 2:
+            # std::find over a local array of constants (`constexpr std::array modes {A, B, C}`): decided from the initialiser
+            rng = aargs_[0]
+            while rng is not None and rng.k in ('cast',): rng = rng.n('sub')
+            if rng is not None and rng.k == 'call' and rng.callee_base() in ('begin', 'cbegin') and rng.n('object') is not None: rng = rng.n('object')
+            elems = self.const_array(rng, fr)
+            # (range, value[, projection]) or (first, last, value[, projection])
+            vi = 1 if (aargs_[0].k == 'ref' and rng is aargs_[0]) or not (aargs_[0].k == 'call') else 2
+            want = ex._rvalue(aargs_[vi], st, fr) if vi < len(aargs_) else None
+            if elems is not None and isinstance(want, (Enum, Lin)) and all(type(x) is type(want) for x in elems):
+                X = self.obj_name(rng)
+                hit = next((i for i, x in enumerate(elems) if x == want), None)
+                return Sym(f'{X}.end') if hit is None else Sym(f'{X}.at{hit}')
         if qn_ in ('std::count_if', 'std::count', 'std::distance') and qn_ != q:
             X_ = self.algo_range(ex, aargs_, st, fr)          # the range form: std::ranges::count_if(container, pred)
             if X_ is not None and self.container_empty(X_) is True: return Lin.const(0)
